@@ -324,6 +324,17 @@ def cases(tier, rng):
             src = None if (k == 4 and tier == "thorough") else (0, 1 + n % (k - 1))
             yield "exhaustive-probe-end-%d" % k, hist(a, i, n // 4, (0, 300_000_000, 999_999_600)[n % 3],
                                                       probe_end(mods, SIZES[0], few, src))
+    # (c') digit alignment: what is hashed into the ETag is the text of (float mtime, size); sub-second times with few
+    # decimals and small sizes, every ordered pair of states less than a second apart (X.0 + 12 bytes vs X.01 + 2 bytes)
+    grid = [(ns, sz) for ns in (0, 10_000_000, 100_000_000, 120_000_000, 500_000_000) for sz in (1, 2, 5, 12, 25, 51)]
+    for (n0, s0) in grid:
+        for (n1, s1) in grid:
+            if n1 <= n0 or s1 == s0:
+                continue
+            n += 1
+            a, i = COMBOS[n % 4]
+            ops = [[3, 0, F_PLAIN], [0, n1 - n0, s1], [3, 0, F_PLAIN], [3, 0, F_STAR]] + [[3, j, k] for j in (0, 1) for k in VAL_FORMS]
+            yield "digit-alignment", hist(a, i, n // 4, n0, ops, size0=s0)
     # (d) random
     for _ in range(3000 if tier == "quick" else 60000):
         yield "random", random_case(rng)
